@@ -406,6 +406,21 @@ func (n *Node) toYAMLPlain(st *YAMLStyle, depth int, inFlow bool) *yaml.Node {
 // read back its own output as the same tree (the Author then falls back to
 // JSON, so that the document always means what the Author intended).
 func (n *Node) ToYAML(st *YAMLStyle) ([]byte, bool) {
+	// yaml.v3 writes a "<<" key unquoted even when it is tagged !!str, and readers then take it for a
+	// merge: the Author renders such documents as JSON, where the key is unambiguous.
+	hasMergeKey := false
+	n.Walk("", func(_ string, x *Node) {
+		if x.Kind == KMap {
+			for _, k := range x.Keys {
+				if k == "<<" {
+					hasMergeKey = true
+				}
+			}
+		}
+	})
+	if hasMergeKey {
+		return nil, false
+	}
 	y := n.ToYAMLNode(st)
 	var buf bytes.Buffer
 	enc := yaml.NewEncoder(&buf)
